@@ -70,6 +70,21 @@ where
             );
             return;
         }
+        // A rejected step whose expected return is of the right kind for the operation (same
+        // variant as the truthful return, other payload) must still leave the object as invoke does;
+        // ill-typed pairings are left alone (the specifications reject those without touching the object).
+        if !step_ok && std::mem::discriminant(&ret) == std::mem::discriminant(&truth) {
+            case.add("rejected_well_typed_steps_compared", 1);
+            if by_step != by_invoke {
+                let mut s = seq.clone();
+                s.push((op.clone(), ret.clone()));
+                case.violation(
+                    &format!("C18/spec/{}/object-after-rejected-well-typed-step-differs-from-object-after-invoke", S::NAME),
+                    json!({"case": wit(&s), "after_step": format!("{:?}", by_step), "after_invoke": format!("{:?}", by_invoke)}),
+                );
+                return;
+            }
+        }
         seq.push((op, ret));
         if valid_so_far && invoke_ok {
             obj = by_invoke;
@@ -482,7 +497,8 @@ fn unused(_: &mut Rng) {}
 pub fn run(ctx: &mut Ctx) {
     ctx.rule = "(spec) for Register, WORegister and Vec: random op/return sequences (all valid / one-off invalid / \
         nonsense pairings) from random initial objects; at every prefix is_valid_step is compared with invoke (and \
-        the resulting objects when both accept), and is_valid_history with replaying invoke from the initial \
+        the resulting objects when both accept, and also when a step whose expected return has the right variant but \
+        another payload is rejected), and is_valid_history with replaying invoke from the initial \
         object. (harness) ActorModel<RegisterActor<S>> and <WORegisterActor<S>> with 1-2 generated servers \
         (answer at once / after an internal round trip / never; correct or arbitrary values; at most once also \
         under redelivery) and 1-3 clients (put_count 0-3) on all network kinds incl. duplicating + lossy, with \
